@@ -26,6 +26,16 @@ Proof.
   apply in_app_or in He. destruct He as [He|He]; [eapply create_no_patch; eassumption|eapply IH; eassumption].
 Qed.
 
+(* the Create of the default ClusterCIDR touches the ClusterCIDR objects, the resource version and the ClusterCIDR feed only *)
+Lemma apply_create_cc_frame w o out :
+  w_nodes (apply_create_cc w o out) = w_nodes w /\ w_ncache (apply_create_cc w o out) = w_ncache w /\
+  w_ccache (apply_create_cc w o out) = w_ccache w /\ w_ctl (apply_create_cc w o out) = w_ctl w /\
+  w_nq (apply_create_cc w o out) = w_nq w /\ w_cq (apply_create_cc w o out) = w_cq w /\
+  w_nfeed (apply_create_cc w o out) = w_nfeed w /\ w_synced (apply_create_cc w o out) = w_synced w /\
+  w_nfetch (apply_create_cc w o out) = w_nfetch w /\ w_cfetch (apply_create_cc w o out) = w_cfetch w /\
+  w_svc (apply_create_cc w o out) = w_svc w /\ w_delseen (apply_create_cc w o out) = w_delseen w.
+Proof. unfold apply_create_cc. destruct out; try (repeat split; reflexivity); destruct (find_cc (o_name o) (w_ccs w)); repeat split; reflexivity. Qed.
+
 Section World.
   Variable po : parse_oracle.
   Variable lab : label_oracle.
@@ -146,7 +156,7 @@ Section World.
     - (* Construct *)
       destruct (w_ctl w) as [m|]; [inversion H; subst; destruct He|].
       unfold construct in H.
-      destruct (bootstrap_ccs [] (w_ccs w) outs) as [m1 fx] eqn:Eb.
+      destruct (bootstrap_ccs [] (with_default dp (w_ccs w)) outs) as [m1 fx] eqn:Eb.
       match type of H with context [occupy_nodes po lab ?m3 ?ns] => destruct (occupy_nodes po lab m3 ns) as [m4 pan] end.
       inversion H; subst. cbn [ob_fx] in He.
       pose proof (bootstrap_no_patch _ _ _ _ _ Eb _ He) as Hp. discriminate Hp.
@@ -250,7 +260,7 @@ Section World.
       pose proof (run_cc_sync_no_patch _ _ _ _ _ _ Er _ He2) as Hp. discriminate Hp.
     - destruct (w_ctl w) as [m|]; [inversion H; subst; destruct He|].
       unfold construct in H.
-      destruct (bootstrap_ccs [] (w_ccs w) outs) as [m1 fx] eqn:Eb.
+      destruct (bootstrap_ccs [] (with_default dp (w_ccs w)) outs) as [m1 fx] eqn:Eb.
       match type of H with context [occupy_nodes po lab ?m3 ?ns] => destruct (occupy_nodes po lab m3 ns) as [m4 pan] end.
       inversion H; subst. cbn [ob_fx] in He.
       pose proof (bootstrap_no_patch _ _ _ _ _ Eb _ He) as Hp. discriminate Hp.
@@ -265,10 +275,12 @@ Section World.
       destruct (negb (o_rv c =? o_rv o)); try reflexivity;
       match goal with |- context [if ?b then _ else _] => destruct b end; reflexivity.
   Qed.
+  Lemma apply_create_cc_nfetch w o out : w_nfetch (apply_create_cc w o out) = w_nfetch w.
+  Proof. unfold apply_create_cc. destruct out; try reflexivity; destruct (find_cc (o_name o) (w_ccs w)); reflexivity. Qed.
   Lemma apply_effects_nfetch fx : forall w, w_nfetch (apply_effects w fx) = w_nfetch w.
   Proof.
     induction fx as [|e fx IH]; intros w; [reflexivity|]. destruct e; cbn [apply_effects]; rewrite IH;
-      [apply apply_patch_nfetch|reflexivity|reflexivity|apply apply_update_cc_nfetch|reflexivity].
+      [apply apply_patch_nfetch|reflexivity|reflexivity|apply apply_update_cc_nfetch|apply apply_create_cc_nfetch].
   Qed.
 
   Definition fetch_sub (w w' : world) : Prop := forall x, In x (w_nfetch w') -> In x (w_nfetch w).
@@ -355,7 +367,7 @@ Section World.
       apply Hsub. intros x Hx. apply Hs. destruct (ob_res ob2 =? 2); exact Hx.
     - (* Construct *)
       destruct (w_ctl w) as [m|]; [exact Hf|].
-      destruct (construct po lab (w_ccs w) outs svc1 svc2 (map node_view (w_nodes w))) as [[m fx] pan].
+      destruct (construct po lab (with_default dp (w_ccs w)) outs svc1 svc2 (map node_view (w_nodes w))) as [[m fx] pan].
       cbn [fst]. intros wk key n Hin. rewrite apply_effects_nfetch in Hin. destruct Hin.
   Qed.
 
@@ -393,7 +405,7 @@ Section World.
     - apply IH.
     - apply IH.
     - destruct (IH (apply_update_cc w o' outcome)) as (A & B & C). destruct (apply_update_cc_caches w o' outcome) as (A' & B' & C'). repeat split; congruence.
-    - apply IH.
+    - destruct (IH (apply_create_cc w o' outcome)) as (A & B & C). destruct (apply_create_cc_frame w o' outcome) as (_ & A' & B' & C' & _). repeat split; congruence.
   Qed.
 
   Lemma after_call_caches {A} w (r : res A) m' : same_caches w (after_call w r m').
@@ -422,13 +434,15 @@ Section World.
   (* ---- C11: a work item that failed is queued again ---- *)
   Lemma apply_effects_queues fx : forall w, w_nq (apply_effects w fx) = w_nq w /\ w_cq (apply_effects w fx) = w_cq w.
   Proof.
-    induction fx as [|e fx IH]; intros w; [split; reflexivity|]. destruct e as [nd cs o|r ob|nd ok|o' outcome|o' outcome]; cbn [apply_effects]; try apply IH.
+    induction fx as [|e fx IH]; intros w; [split; reflexivity|]. destruct e as [nd cs o|r ob|nd ok|o' outcome|o' outcome]; cbn [apply_effects]; [|apply IH|apply IH| |].
     - destruct (IH (apply_patch w nd cs o)) as (A & B). rewrite A, B. unfold apply_patch.
       destruct o; try (split; reflexivity); destruct (find_anode nd (w_nodes w)) as [a|]; try (split; reflexivity); destruct (an_cidrs a); split; reflexivity.
     - destruct (IH (apply_update_cc w o' outcome)) as (A & B). rewrite A, B. unfold apply_update_cc.
       destruct outcome; try (split; reflexivity); destruct (find_cc (o_name o') (w_ccs w)) as [c|]; try (split; reflexivity);
         destruct (negb (o_rv c =? o_rv o')); try (split; reflexivity);
         match goal with |- context [if ?b then _ else _] => destruct b end; split; reflexivity.
+    - destruct (IH (apply_create_cc w o' outcome)) as (A & B). rewrite A, B.
+      destruct (apply_create_cc_frame w o' outcome) as (_ & _ & _ & _ & Q1 & Q2 & _). split; assumption.
   Qed.
 
   Lemma q_add_retry_in k q : In k (q_retry (q_add_retry k q)).
@@ -465,10 +479,10 @@ Section World.
   (* C03: the state a new incarnation starts from is a function of the API objects (and the configured
      service ranges and the outcomes of its own start-up writes) only: nothing of the previous
      incarnation's memory, caches, queues or fetched items enters *)
-  Theorem construct_from_api_only w w2 s1 s2 outs :
+  Theorem construct_from_api_only w w2 s1 s2 outs dp :
     w_ctl w = None -> w_ctl w2 = None -> w_nodes w = w_nodes w2 -> w_ccs w = w_ccs w2 -> w_rv w = w_rv w2 ->
     w_delseen w = w_delseen w2 ->
-    step po lab w (Construct s1 s2 outs) = step po lab w2 (Construct s1 s2 outs).
+    step po lab w (Construct s1 s2 outs dp) = step po lab w2 (Construct s1 s2 outs dp).
   Proof.
     intros H1 H2 Hn Hc Hr Hd. cbn [step]. rewrite H1, H2, Hn, Hc, Hr, Hd. reflexivity.
   Qed.
